@@ -325,16 +325,18 @@ func (stmt *Statement) BuildCondition(query interface{}, args ...interface{}) []
 		case clause.Expression:
 			conds = append(conds, v)
 		case *DB:
-			v.executeScopes()
+			// v may be a reusable handle: run its scopes on its own instance and leave its conditions untouched
+			v = v.getInstance().executeScopes()
 
 			if cs, ok := v.Statement.Clauses["WHERE"]; ok {
 				if where, ok := cs.Expression.(clause.Where); ok {
-					if len(where.Exprs) == 1 {
-						if orConds, ok := where.Exprs[0].(clause.OrConditions); ok {
-							where.Exprs[0] = clause.AndConditions(orConds)
+					exprs := where.Exprs
+					if len(exprs) == 1 {
+						if orConds, ok := exprs[0].(clause.OrConditions); ok {
+							exprs = []clause.Expression{clause.AndConditions(orConds)}
 						}
 					}
-					conds = append(conds, clause.And(where.Exprs...))
+					conds = append(conds, clause.And(exprs...))
 				} else if cs.Expression != nil {
 					conds = append(conds, cs.Expression)
 				}
